@@ -5,7 +5,9 @@ Data (JSON-able, so a case can be replayed from its record):
     None                      omitted item of a list whose item symbol is nullable
     ["L", item, ...]          list            ["AL"]   absent optional list
     ["M", [key, value], ...]  map             ["AM"]   absent optional map
-    ["S", element, ...]       sequence
+    ["S", element, ...]       sequence (embedded as '@' ... ';')
+    ["R", element, ...]       row: a sequence that is directly the item of a list (only in lists whose item
+                              symbol is a ProdSequence symbol); an empty row plays the part of an omitted item
 Expected normal form (what the statement says the default cleanup returns):
     atom -> str, None -> None, list -> list in source order, map -> dict (a repeated key keeps the
     last value), sequence -> tuple of the matched elements in order, absent container -> None.
@@ -26,8 +28,10 @@ KEYS = ("a", "b")
 class LOpt:
     """ListProds(open, item, delimiter, close, allow_final_delimiter=afd, optional=optional)."""
 
-    def __init__(self, brackets, delim, afd, optional, nullable):
+    def __init__(self, brackets, delim, afd, optional, nullable, item_seq=False):
         self.brackets, self.delim, self.afd, self.optional, self.nullable = brackets, delim, afd, optional, nullable
+        # item_seq: the item symbol is itself a ProdSequence symbol ('ROW'); such an item is nullable
+        self.item_seq = item_seq
 
     @property
     def afd_effective(self):            # documented default: allowed iff there are brackets and a delimiter
@@ -38,27 +42,29 @@ class LOpt:
         return (not self.brackets) or bool(self.optional)
 
     def key(self):
-        return [self.brackets, self.delim, self.afd, self.optional, self.nullable]
+        return [self.brackets, self.delim, self.afd, self.optional, self.nullable, self.item_seq]
 
     def __repr__(self):
-        return "L(br=%s,dl=%s,afd=%s,opt=%s,null=%s)" % tuple(self.key())
+        return "L(br=%s,dl=%s,afd=%s,opt=%s,null=%s,rows=%s)" % tuple(self.key())
 
 
 class MOpt:
     """MapProds(open, key, ':', value, ',', close, optional=optional, allow_final_delimiter=afd)."""
 
-    def __init__(self, brackets, afd, optional, key_nt):
+    def __init__(self, brackets, afd, optional, key_nt, val_same=False):
         self.brackets, self.afd, self.optional, self.key_nt = brackets, afd, optional, key_nt
+        # val_same: the value symbol is the very symbol used for the keys (a word -> word map)
+        self.val_same = val_same
 
     @property
     def wrapped(self):
         return (not self.brackets) or bool(self.optional)
 
     def key(self):
-        return [self.brackets, self.afd, self.optional, self.key_nt]
+        return [self.brackets, self.afd, self.optional, self.key_nt, self.val_same]
 
     def __repr__(self):
-        return "M(br=%s,afd=%s,opt=%s,keynt=%s)" % tuple(self.key())
+        return "M(br=%s,afd=%s,opt=%s,keynt=%s,valsame=%s)" % tuple(self.key())
 
 
 def list_options():
@@ -73,6 +79,9 @@ def list_options():
         if nullable and not delim:
             continue                    # GrammarError in ListProds.verify_grammar
         out.append(LOpt(brackets, delim, afd, optional, nullable))
+        if delim and nullable:
+            # the same options with a ProdSequence symbol as item symbol (always nullable, needs a delimiter)
+            out.append(LOpt(brackets, delim, afd, optional, True, item_seq=True))
     return out
 
 
@@ -83,6 +92,7 @@ def map_options():
         if optional is not None and not brackets:
             continue
         out.append(MOpt(brackets, afd, optional, key_nt))
+        out.append(MOpt(brackets, afd, optional, key_nt, val_same=True))
     return out
 
 
@@ -113,13 +123,13 @@ class DataSpace:
                 out.append(["AM"])
         if depth >= 1 and size >= 1:
             # containers: one node for the container itself, the rest distributed over the children
-            for kids in self._children(size - 1, depth - 1, allow_none=self.l.nullable):
-                if kids and kids[-1] is None and not (self.l.afd_effective and self.l.delim):
+            for kids in self._children(size - 1, depth - 1, allow_none=self.l.nullable, rows=self.l.item_seq):
+                if kids and kids[-1] in (None, ["R"]) and not (self.l.afd_effective and self.l.delim):
                     # without an allowed final delimiter a trailing omitted item cannot be told from a
                     # final delimiter / an empty bracket pair; with one, "[a,,]" denotes ['a', None]
                     continue
                 out.append(["L"] + list(kids))
-            for kids in self._children(size - 1, depth - 1, allow_none=False):
+            for kids in self._children(size - 1, depth - 1, allow_none=False, atoms_only=self.m.val_same):
                 for keys in itertools.product(KEYS, repeat=len(kids)):
                     out.append(["M"] + [[k, v] for k, v in zip(keys, kids)])
             for kids in self._children(size - 1, depth - 1, allow_none=False):
@@ -127,7 +137,12 @@ class DataSpace:
         self._memo[key] = out
         return out
 
-    def _children(self, total, depth, allow_none):
+    def row_values(self, size, depth):
+        """Rows (sequences that are list items) of exactly ``size`` nodes; a row does not count as a
+        nesting level of its own."""
+        return [["R"] + list(kids) for kids in self._children(size - 1, depth, allow_none=False)]
+
+    def _children(self, total, depth, allow_none, rows=False, atoms_only=False):
         """All tuples of <= max_width children with sizes summing to ``total``."""
         res = []
         if total == 0:
@@ -140,9 +155,14 @@ class DataSpace:
             if len(prefix) >= self.max_width:
                 return
             for s in range(1, left + 1):
-                cands = list(self.values(s, depth))
-                if allow_none and s == 1:
-                    cands = cands + [None]
+                if rows:
+                    cands = self.row_values(s, depth)      # the empty row ["R"] is the omitted item
+                elif atoms_only:
+                    cands = list(ATOMS) if s == 1 else []
+                else:
+                    cands = list(self.values(s, depth))
+                    if allow_none and s == 1:
+                        cands = cands + [None]
                 for c in cands:
                     prefix.append(c)
                     rec(prefix, left - s)
@@ -161,6 +181,8 @@ def depth_of(v):
         return 0
     if v[0] == "M":
         return 1 + max([depth_of(x[1]) for x in v[1:]] or [0])
+    if v[0] == "R":
+        return max([depth_of(x) for x in v[1:]] or [0])
     return 1 + max([depth_of(x) for x in v[1:]] or [0])
 
 
@@ -178,9 +200,11 @@ def features_of(v, feats, inside=None):
     if k == "AM":
         feats.add("map:absent-optional")
         return
-    name = {"L": "list", "M": "map", "S": "seq"}[k]
+    name = {"L": "list", "M": "map", "S": "seq", "R": "row"}[k]
     feats.add(name)
     n = len(v) - 1
+    if k == "R" and n == 0:
+        feats.add("list:omitted-item")
     feats.add(f"{name}:len{min(n, 3)}" if n < 3 else f"{name}:len3+")
     if inside is not None:
         feats.add(f"{name}-in-{inside}")
@@ -194,47 +218,46 @@ def features_of(v, feats, inside=None):
 
 
 # ------------------------------------------------------------------------------- expected value
-def expected(v, first_wins=False):
-    """Normal form the statement demands (first_wins=True: the *wrong* reading in which a repeated key
-    keeps its first value — only used to name that class of violation)."""
-    if v is None or isinstance(v, str):
-        return v
-    k = v[0]
-    if k in ("AL", "AM"):
-        return None
-    if k == "L":
-        return [expected(x, first_wins) for x in v[1:]]
-    if k == "M":
-        d = {}
-        for key, val in v[1:]:
-            if first_wins and key in d:
-                continue
-            d[key] = expected(val, first_wins)
-        return d
-    return tuple(expected(x, first_wins) for x in v[1:])
+def expected(v, first_wins=False, tail=None, empty_rows=None):
+    """Normal form the statement demands.
+
+    Variants (each names a *reading* the check accepts or a wrong result it wants to name):
+      first_wins : a repeated key keeps its first value (wrong; only used to name that class of violation)
+      tail       : (lopt, fd_at) — a delimiter after the last item reads as 'one more, omitted, item':
+                   for a list with nullable items whose options do not allow a final delimiter, and for
+                   every list whose items are rows (an empty row is a legal row)
+      empty_rows : lopt — a bracket-less list of rows without any token reads as one empty row
+    """
+    def rec(x, depth):
+        if x is None or isinstance(x, str):
+            return x
+        k = x[0]
+        if k in ("AL", "AM"):
+            return None
+        if k == "L":
+            items = [rec(c, depth + 1) for c in x[1:]]
+            if tail is not None and items:
+                lopt, fd_at = tail
+                has_fd = lopt.delim and (fd_at(depth) or x[-1] in (None, ["R"]))
+                if has_fd and (lopt.item_seq or (lopt.nullable and not lopt.afd_effective)):
+                    items.append(() if lopt.item_seq else None)
+            if empty_rows is not None and not items and empty_rows.item_seq and not empty_rows.brackets:
+                items = [()]
+            return items
+        if k == "M":
+            d = {}
+            for key, val in x[1:]:
+                if first_wins and key in d:
+                    continue
+                d[key] = rec(val, depth + 1)
+            return d
+        # "S" and "R": the matched elements in order
+        return tuple(rec(c, depth + 1) for c in x[1:])
+    return rec(v, 0)
 
 
-def expected_with_omitted_tail(v, lopt, fd_at, depth=0, first_wins=False):
-    """Reading of a delimiter after the last item as 'one more, omitted, item' — only meaningful for a
-    list with nullable items where a final delimiter is not allowed (see render)."""
-    if v is None or isinstance(v, str):
-        return v
-    k = v[0]
-    if k in ("AL", "AM"):
-        return None
-    if k == "L":
-        items = [expected_with_omitted_tail(x, lopt, fd_at, depth + 1, first_wins) for x in v[1:]]
-        if items and lopt.delim and fd_at(depth) and lopt.nullable and not lopt.afd_effective:
-            items.append(None)
-        return items
-    if k == "M":
-        d = {}
-        for key, val in v[1:]:
-            if first_wins and key in d:
-                continue
-            d[key] = expected_with_omitted_tail(val, lopt, fd_at, depth + 1, first_wins)
-        return d
-    return tuple(expected_with_omitted_tail(x, lopt, fd_at, depth + 1, first_wins) for x in v[1:])
+def expected_with_omitted_tail(v, lopt, fd_at, first_wins=False):
+    return expected(v, first_wins=first_wins, tail=(lopt, fd_at))
 
 
 def key_order_violation(v, got):
@@ -275,12 +298,14 @@ FD_MODES = {
 
 
 class Rendered:
-    __slots__ = ("tokens", "fd_used", "fd_forbidden", "fd_ambiguous", "fd_mandatory")
+    __slots__ = ("tokens", "fd_used", "fd_forbidden", "fd_ambiguous", "fd_mandatory", "fd_rows", "empty_rowlist")
 
     def __init__(self):
         self.tokens = []
         self.fd_used = False        # some container got a final delimiter
         self.fd_mandatory = False   # ... because its last item is an omitted one
+        self.fd_rows = False        # ... a list whose items are rows: the delimiter also reads as 'empty row follows'
+        self.empty_rowlist = False  # a bracket-less list of rows without any token occurs
         self.fd_forbidden = False   # ... one whose options do not allow it (text must be rejected)
         self.fd_ambiguous = False   # ... a list with nullable items and final delimiter not allowed:
         #                             the same characters also read as 'omitted last item'
@@ -309,20 +334,25 @@ def render(v, lopt, mopt, fd_mode="none"):
                 t.append("<")
             if lopt.brackets:
                 t.append("[")
+            elif lopt.item_seq and len(x) == 1:
+                r.empty_rowlist = True
             for i, it in enumerate(x[1:]):
                 if i and lopt.delim:
                     t.append(",")
                 rec(it, depth + 1)
-            if len(x) > 1 and x[-1] is None:
+            fd_here = False
+            if len(x) > 1 and x[-1] in (None, ["R"]):
                 # trailing omitted item (only generated when a final delimiter is allowed): the final
                 # delimiter is what makes the omitted item visible
-                t.append(",")
-                r.fd_used = True
-                r.fd_mandatory = True
+                fd_here = r.fd_mandatory = True
             elif len(x) > 1 and lopt.delim and fd_at(depth):
+                fd_here = True
+            if fd_here:
                 t.append(",")
                 r.fd_used = True
-                if not lopt.afd_effective:
+                if lopt.item_seq:
+                    r.fd_rows = True
+                elif not lopt.afd_effective:
                     if lopt.nullable:
                         r.fd_ambiguous = True
                     else:
@@ -331,6 +361,10 @@ def render(v, lopt, mopt, fd_mode="none"):
                 t.append("]")
             if lopt.wrapped:
                 t.append(">")
+            return
+        if k == "R":
+            for e in x[1:]:
+                rec(e, depth + 1)
             return
         if k == "M":
             if mopt.wrapped:
@@ -368,7 +402,24 @@ LAYOUTS = {
     "newline": ["\n  "],
     "comment": [" /*c*/ "],
     "mixed": [" ", " //x\n", "/*c\nd*/", "", "\n", "  /**/"],
+    # characters str.splitlines() takes for line ends although the tokenizer contract (split at "\n" only)
+    # does not: as blanks, inside a one-line comment whose remaining text would parse as further
+    # items / entries / elements, and inside a multi-line comment
+    "exotic": [" //\x0c b\n", "\x0c", " //x\u2028, a\n", "/*c\u2028d*/", "\u2028 ", " //\x0c a : b ,\n", "/*\x0c*/", ""],
 }
+EXOTIC_GAP_FEATURES = {
+    " //\x0c b\n": "gap:eol-comment-with-exotic-line-break", " //x\u2028, a\n": "gap:eol-comment-with-exotic-line-break",
+    " //\x0c a : b ,\n": "gap:eol-comment-with-exotic-line-break", "\x0c": "gap:exotic-line-break-as-blank",
+    "\u2028 ": "gap:exotic-line-break-as-blank", "/*c\u2028d*/": "gap:span-comment-with-exotic-line-break",
+    "/*\x0c*/": "gap:span-comment-with-exotic-line-break",
+}
+
+
+def layout_features(n_tokens, name):
+    """Which kinds of gap a text of n tokens in this layout contains (gaps are assigned by position)."""
+    gaps = LAYOUTS[name]
+    return {EXOTIC_GAP_FEATURES[g] for g in (gaps[i % len(gaps)] for i in range(n_tokens + 1))
+            if g in EXOTIC_GAP_FEATURES}
 
 
 def layout(tokens, name):
@@ -402,41 +453,52 @@ def _is_telem(x):
     return hasattr(x, "is_leaf") and hasattr(x, "value") and hasattr(x, "name")
 
 
-def normalise(x, in_seq=False):
-    """Cleaned result -> plain Python data (list / dict / tuple for a sequence / str / None)."""
+def normalise(x, in_seq=False, rows=False):
+    """Cleaned result -> plain Python data (list / dict / tuple for a sequence / str / None).
+
+    rows=True: the grammar's list items are rows (the item symbol is a ProdSequence symbol), so every entry
+    of a list value is itself the list of the elements the row matched -> tuple.
+    in_seq: False, or "sequence" / "row" — where a not converted container was met (names the violation)."""
     if x is None or isinstance(x, str):
         return x
     if isinstance(x, list):
-        return [normalise(i, in_seq) for i in x]
+        if rows:
+            out = []
+            for row in x:
+                if not (isinstance(row, list) and all(_is_telem(e) for e in row)):
+                    raise Shape("row-not-a-list-of-elements", repr(row)[:160], in_seq)
+                out.append(tuple(normalise(e, "row", rows) for e in row))
+            return out
+        return [normalise(i, in_seq, rows) for i in x]
     if isinstance(x, dict):
         out = {}
         for k, v in x.items():
             if not isinstance(k, str):
                 raise Shape("map-key-not-a-string", repr(k)[:120], in_seq)
-            out[k] = normalise(v, in_seq)
+            out[k] = normalise(v, in_seq, rows)
         return out
     if not _is_telem(x):
         raise Shape("foreign-object-in-result", repr(x)[:120], in_seq)
     v = x.value
     kids = v if (isinstance(v, list) and v and all(_is_telem(c) for c in v)) else None
     if x.is_leaf() or kids is None:
-        if kids is not None and x.is_leaf() and x.name == "SEQ":
-            return tuple(normalise(e, True) for e in kids)
-        return normalise(v, in_seq)
+        if x.is_leaf() and x.name == "SEQ" and isinstance(v, list) and all(_is_telem(c) for c in v):
+            return tuple(normalise(e, "sequence", rows) for e in v)
+        return normalise(v, in_seq, rows)
     names = [c.name for c in kids]
     if len(kids) == 3 and (names[0], names[2]) in (("<", ">"), ("(", ")")):
-        return normalise(kids[1], in_seq)
+        return normalise(kids[1], in_seq, rows)
     if len(kids) == 3 and (names[0], names[2]) == ("@", ";"):
         seq = kids[1]
         sv = seq.value
         if not (seq.is_leaf() and isinstance(sv, list)):
             raise Shape("sequence-not-a-list-of-elements", repr(seq)[:160], in_seq)
-        return tuple(normalise(e, True) for e in sv)
+        return tuple(normalise(e, "sequence", rows) for e in sv)
     if x.name in ("LIST", "MAP") or names[0] in ("[", "{") or any("__" in nm for nm in names) or "__" in x.name:
         # a node of a template symbol (or of one of its helper symbols) that still has child nodes
         raise Shape("container-not-converted", repr(x)[:200], in_seq)
     if len(kids) == 1:
-        return normalise(kids[0], in_seq)
+        return normalise(kids[0], in_seq, rows)
     raise Shape("unexpected-node", repr(x)[:200], in_seq)
 
 
@@ -514,7 +576,17 @@ def selftest():
     LO = LOpt(True, False, None, True, False)
     assert render(["AL"], LO, M).tokens == ["<", ">"] and expected(["AL"]) is None
     assert render(["L"], LO, M).tokens == ["<", "[", "]", ">"] and expected(["L"]) == []
-    assert len(list_options()) == 30 and len(map_options()) == 16, (len(list_options()), len(map_options()))
+    assert len(list_options()) == 41 and len(map_options()) == 32, (len(list_options()), len(map_options()))
+    # rows of cells (seeded/C05-b demo): "[ a b [ b , a a ] , a ]" -> [('a', 'b', [('b',), ('a', 'a')]), ('a',)]
+    LR = LOpt(True, True, None, None, True, item_seq=True)
+    v = ["L", ["R", "a", "b", ["L", ["R", "b"], ["R", "a", "a"]]], ["R", "a"]]
+    assert render(v, LR, M).tokens == ["[", "a", "b", "[", "b", ",", "a", "a", "]", ",", "a", "]"]
+    assert expected(v) == [("a", "b", [("b",), ("a", "a")]), ("a",)]
+    r = render(["L", ["R", "a"]], LR, M, "all")
+    assert r.fd_rows and not r.fd_forbidden and expected(["L", ["R", "a"]], tail=(LR, FD_MODES["all"])) == [("a",), ()]
+    # word -> word map (seeded/C05-a demo): {a: b}
+    assert render(["M", ["a", "b"]], L, MOpt(True, True, None, False, val_same=True)).tokens == ["{", "a", ":", "b", "}"]
+    assert "\x0c" in layout(["[", "a", "]"], "exotic") and layout_features(3, "exotic")
     assert layout(["a", "b", ","], "tight") == "a b,"
     # "[a,,]" with nullable items and final delimiter allowed: items a, omitted; the final delimiter adds nothing
     r = render(["L", "a", None], L, M)
